@@ -53,6 +53,19 @@ def truncOk {μ : Type} [BEq μ] (lens : List Nat) (orig : List μ) (c : Nat)
   if k == 0 && 0 < c then yielded.isEmpty && endErr == some Err.fetchSizeTooSmall
   else yielded == orig.take k && endErr == none
 
+/-- The same for a set whose entries may be gzip wrappers: `contents` lists, per entry, what it
+    contains (a plain message: itself; a wrapper: its inner messages with the offsets its format
+    prescribes).  Exactly the contents of the complete entries are yielded; the iteration ends
+    normally when the cut is on an entry boundary or something was yielded, otherwise with
+    `ConsumerFetchSizeTooSmall`. -/
+def truncOkG {μ : Type} [BEq μ] (lens : List Nat) (contents : List (List μ)) (c : Nat)
+    (yielded : List μ) (endErr : Option Err) : Bool :=
+  let k := completeCount lens c
+  let ys := (contents.take k).flatten
+  yielded == ys &&
+    (if !ys.isEmpty || c == (lens.take k).sum then endErr == none
+     else endErr == some Err.fetchSizeTooSmall)
+
 /-! ## Enlarging rather than skipping -/
 
 /-- What C12 demands of the consumer after a fetch whose message set was cut short, when the first
